@@ -23,6 +23,7 @@
 #include <sys/wait.h>
 #include <sys/uio.h>
 #include <csignal>
+#include "watchdog.h"
 using namespace hsim;
 using namespace photon;
 
@@ -164,7 +165,8 @@ static void check_canaries() {
         if (!ok) emit("canary %ld modified", k);
     }
 }
-static void on_alarm(int) { emit("result hung"); flush_trace(); _exit(0); }
+// the program has N s in which the machine runs it (watchdog.h): spinning or blocked in the kernel after that = hung
+static void on_verdict(const char* result) { trace += wd::g_diag; emit("%s", result); flush_trace(); _exit(0); }
 static void rpc_hook(int point, const void* obj, uint64_t a, uint64_t b) {
     using namespace photon::verif;
     if (photon::CURRENT && !names.count(photon::CURRENT)) names[photon::CURRENT] = "idle";
@@ -174,7 +176,7 @@ static void rpc_hook(int point, const void* obj, uint64_t a, uint64_t b) {
 }
 
 static int run_program(const std::vector<std::string>& lines) {
-    signal(SIGALRM, on_alarm); alarm(10);
+    wd::start(nullptr, on_verdict, 10, 1);
     hsim::init();
     photon::verif::hook = &rpc_hook;
     stream = new MemStream;
